@@ -1344,8 +1344,15 @@ fn sweep_alphabet() -> Vec<String> {
     ]
 }
 
+/// indices (into `sweep_alphabet`) of the reduced alphabet of the depth-6 sweep: connect requests
+/// from both addresses, both accepts, data and close on the first connection, send, flush, time, tick
+const REDUCED: &[usize] = &[0, 2, 3, 4, 8, 10, 11, 12, 15, 16];
+
 fn gen_sweeps(depth: u32, chunk: u64, out: &mut dyn std::io::Write) {
-    let alpha = sweep_alphabet();
+    gen_sweeps_over(sweep_alphabet(), depth, chunk, out)
+}
+
+fn gen_sweeps_over(alpha: Vec<String>, depth: u32, chunk: u64, out: &mut dyn std::io::Write) {
     let total = (alpha.len() as u64).pow(depth);
     let text = alpha.join(" ; ");
     let mut lo = 0;
@@ -1363,6 +1370,8 @@ fn gen_all(tier: &str, seed: u64, out: &mut dyn std::io::Write) {
         "thorough" => {
             gen_sweeps(4, 4096, out);
             gen_sweeps(5, 32768, out);
+            let full = sweep_alphabet();
+            gen_sweeps_over(REDUCED.iter().map(|i| full[*i].clone()).collect(), 6, 32768, out);
         }
         "search" => {}
         _ => gen_sweeps(4, 8192, out),
